@@ -201,6 +201,8 @@ def run(ck: core.Check):
         programs.append((prog, "skeleton:" + tag))
     for prog, tag in L.skeleton2_programs(ck.pick(2, 4)):
         programs.append((prog, "skeleton2:" + tag))
+    for prog, tag in L.skeleton3_programs(ck.pick(2, 3), ck.pick(1, 2)):
+        programs.append((prog, "skeleton3:" + tag))
     n_skel = len(programs)
     for i in range(n_random):
         size = rng.choice([8, 12, 16, 20, 26, 32, 40])
